@@ -365,19 +365,21 @@ def check_index(ctx, case):
             vl, vr = mk(args['L']), mk(args['R'])
             argobj = (vl, vr)
             s0 = (snap(vl), snap(vr))
-            res = a.projected(vl, vr, normalize=args['normalize'])
-            if (snap(vl), snap(vr)) != s0:
-                probs.append(('violation', 'argument-mutated', 'projected vectors (%s, %s, normalize=%s)' % (args['L']['form'], args['R']['form'], args['normalize'])))
-            vl, vr = mk(args['L']), mk(args['R'])
+            # (the expectation is computed before the call, from fresh copies of the vectors: a result that is undefined on
+            # every timeslice cannot be constructed, and the refusal must find the expectation in place)
+            vl0, vr0 = mk(args['L']), mk(args['R'])
             exp = []
             for t, x in enumerate(a.content):
-                l_, r_ = at(vl, t), at(vr, t)
+                l_, r_ = at(vl0, t), at(vr0, t)
                 if x is None or l_ is None or r_ is None:
                     exp.append(None)
                     continue
                 if args['normalize']:
                     l_, r_ = l_ / np.sqrt(l_ @ l_), r_ / np.sqrt(r_ @ r_)
                 exp.append(np.asarray([l_ @ x @ r_]))
+            res = a.projected(vl, vr, normalize=args['normalize'])
+            if (snap(vl), snap(vr)) != s0:
+                probs.append(('violation', 'argument-mutated', 'projected vectors (%s, %s, normalize=%s)' % (args['L']['form'], args['R']['form'], args['normalize'])))
         elif m == 'hankel':
             n, per = args['n'], args['periodic']
             exp = []
@@ -395,7 +397,9 @@ def check_index(ctx, case):
                         else:
                             mat[i, j] = src[0]
                 exp.append(mat if ok else None)
-            res = a.Hankel(n, periodic=per)
+            # the switch in any of the forms a truth value arrives in (result of a numpy comparison, 0 / 1)
+            per_arg = {'np': np.bool_(per), 'int': int(per)}.get(args.get('flag_form'), per)
+            res = a.Hankel(n, periodic=per_arg)
             req = {'method': 'hankel', 'n': n, 'periodic': per}
         elif m == 'repr':
             pr = list(args['print_range'])
@@ -525,7 +529,7 @@ def gen_case(ctx):
         if f == 'arccosh':
             lo, hi = (0.6, 2.5)
         return {'kind': 'func', 'a': gen_corr(rng, lo=lo, hi=hi), 'f': f}
-    m = rng.choice(['roll', 'reverse', 'thin', 'symmetric', 'anti_symmetric', 'T_symmetry', 'item', 'trace', 'matrix_symmetric', 'projected', 'hankel', 'repr'])
+    m = rng.choice(['roll', 'reverse', 'thin', 'symmetric', 'anti_symmetric', 'T_symmetry', 'item', 'trace', 'matrix_symmetric', 'projected', 'hankel', 'hankel', 'repr'])
     if m in ('item', 'trace', 'matrix_symmetric', 'projected'):
         a = gen_corr(rng, N=rng.choice([2, 3]))
     elif m in ('symmetric', 'anti_symmetric', 'T_symmetry', 'hankel', 'repr'):
@@ -561,7 +565,7 @@ def gen_case(ctx):
                     sp['vs'][rng.randrange(T)] = None
         case['args'] = {'L': L, 'R': R, 'normalize': normalize}
     elif m == 'hankel':
-        case['args'] = {'n': rng.choice([1, 2, 3]), 'periodic': rng.random() < 0.5}
+        case['args'] = {'n': rng.choice([1, 2, 3]), 'periodic': rng.random() < 0.5, 'flag_form': rng.choice([None, 'np', 'int', 'np', 'int'])}
     elif m == 'repr':
         case['args'] = {'print_range': [rng.randrange(T), rng.choice([None, rng.randrange(T), T - 1])]}
     return case
